@@ -189,7 +189,8 @@ impl Prop for C16 {
             coord_strategy(),
             proptest::option::weighted(0.6, coord_strategy()),
             0u8..5,
-            proptest::option::weighted(0.6, proptest::collection::vec(0u8..4, 1..4)),
+            // present-but-empty lists too: no class allowed, every edge excluded
+            proptest::option::weighted(0.6, prop_oneof![1 => Just(vec![]), 9 => proptest::collection::vec(0u8..4, 1..4)]),
             proptest::bool::weighted(0.7),
         )
             .prop_map(|(origin, destination, extra_fields, classes, with_vehicle)| QSpec {
